@@ -58,3 +58,12 @@ func (r *Report) AddKnown(id string, stillFails bool, what, observed string) {
 	r.Known = append(r.Known, KnownReplay{ID: id, StillFails: stillFails, What: what, Observed: observed})
 	r.mu.Unlock()
 }
+
+// GoBuildArgs returns the leading arguments of a `go build` of a harness command: when the check runs against another
+// checkout of the repository (VERIF_REPO), the alternative module file that points the replace directive there.
+func GoBuildArgs() []string {
+	if mf := os.Getenv("VERIF_MODFILE"); mf != "" {
+		return []string{"build", "-modfile", mf}
+	}
+	return []string{"build"}
+}
